@@ -76,7 +76,10 @@ Create ==
              Do([a |-> "mwo", f |-> f, mode |-> m, in |-> n], ApiMwo(st, f, m, n))
      \/ /\ "zip" \in Ctors
         /\ \E x \in IntNodes, y \in IntNodes :
-             Do([a |-> "zip", in |-> <<x, y>>], ApiZip(st, x, y))
+             \* the harness converts the tuple with an extra `map` node (id + 1)
+             st.n + 2 <= MaxNodes /\
+             Do([a |-> "zip", in |-> <<x, y>>],
+                LET s1 == ApiZip(st, x, y) IN ApiMap(s1, "id", s1.n, <<>>))
      \/ /\ "dependon" \in Ctors
         /\ \E x \in IntNodes, y \in IntNodes : x # y /\
              Do([a |-> "dependon", in |-> <<x, y>>], ApiDependOn(st, x, y))
